@@ -4,7 +4,7 @@
    every input, every fuel, with or without partial parsing.
    Not proved (see DESIGN.md): termination (reduce_acyclic_b is a sufficient
    per-table condition; the real runs are under a watchdog). *)
-From RV Require Import Model.LR Spec.Validators Proofs.Sound Proofs.Safe.
+From RV Require Import Model.LR Model.Compare Spec.Validators Proofs.Sound Proofs.Safe Proofs.Terminate.
 From RV Require Properties.C02.
 
 Theorem lr_no_panic : forall g T partial fuel w n,
@@ -27,6 +27,32 @@ Theorem default_lexer_is_an_instance : forall g T partial fuel c,
   run_lex g T (default_lex T partial) fuel c = run g T partial fuel c.
 Proof. intros g T partial fuel c. exact (run_lex_default g T partial fuel c). Qed.
 Print Assumptions default_lexer_is_an_instance.
+
+(* termination (full parsing, default lexer, token level): if the table passes
+   reduce_acyclic_b, the run finishes within the fuel the checks use,
+   (4+|w|)*(4+2*states) turns; so the outcome is Ok or an error, never a panic
+   and never "still running". Tables that fail reduce_acyclic_b are the
+   recorded finding lr-reduce-cycle. *)
+Theorem lr_terminates : forall g T w,
+  wf_grammar_b g = true -> safe_b g T = true -> reduce_acyclic_b g T = true ->
+  parse g T false (fuel_for T w) w <> OutOfFuel.
+Proof. intros g T w Hwf Hs Ha. exact (lr_terminates_main g T Hs Ha w). Qed.
+Print Assumptions lr_terminates.
+
+Theorem lr_total : forall g T w,
+  wf_grammar_b g = true -> safe_b g T = true -> reduce_acyclic_b g T = true ->
+  (exists t k, parse g T false (fuel_for T w) w = Ok t k) \/
+  (exists k ex, parse g T false (fuel_for T w) w = Err k ex) \/
+  parse g T false (fuel_for T w) w = ErrNoAction.
+Proof.
+  intros g T w Hwf Hs Ha.
+  pose proof (lr_terminates_main g T Hs Ha w) as Ht.
+  pose proof (fun n => lr_no_panic_main g T Hs false w (fuel_for T w) n) as Hp.
+  destruct (parse g T false (fuel_for T w) w) as [t k|k ex| |n|]; eauto.
+  - exfalso. eapply Hp. reflexivity.
+  - exfalso. apply Ht. reflexivity.
+Qed.
+Print Assumptions lr_total.
 
 Example lr_no_panic_nonvacuous :
   safe_b C02.ex_g C02.ex_T = true /\ reduce_acyclic_b C02.ex_g C02.ex_T = true.
